@@ -417,7 +417,7 @@ class Bounds(object):
             for a in conj:
                 if a[0] != 'cmp':
                     continue
-                _, l, op, r = a
+                l, op, r = a[1], a[2], a[3]
                 for (x, y, o) in ((l, r, op), (r, l, facts.CMP_MIRROR[op])):
                     key = self.key_of(x)
                     if key is None or key not in keys:
